@@ -594,23 +594,30 @@ Definition spec_lca (p : poset) (x y : nat) : list nat :=
 Record entry := {
   e_types : list nat;            (* spec.edge_types (interned names) *)
   e_prop : option nat;           (* spec.measure.property *)
+  e_elig : option (list nat);    (* measure_nodes: dense indices carrying the measure label at
+                                    build time; None = measure not restricted to a label *)
   e_index : option index;        (* None = declined *)
   e_stale : bool
 }.
 Definition usable (e : entry) : bool :=
   match e_index e with Some _ => negb (e_stale e) | None => false end.
 
+Definition e_with (e : entry) (ix : option index) (st : bool) : entry :=
+  {| e_types := e_types e; e_prop := e_prop e; e_elig := e_elig e; e_index := ix; e_stale := st |}.
+
 Inductive mop :=
 | MEdgeWrite (ty : nat)                              (* create/delete edge of this type *)
-| MMeasureWrite (prop node : nat) (v : option Z)     (* node = dense index, or >= n when outside *)
-| MRebuild (fresh : option index).                   (* the entry produced by build_entry *)
+| MMeasureWrite (prop node : nat) (v : option Z)     (* set property; node = dense index, or >= n when outside *)
+| MPropRemove (prop node : nat)                      (* GraphStore::remove_node_property: the manager
+                                                        is NOT notified (known finding) *)
+| MRebuild (fresh : option index) (elig : option (list nat)).  (* the entry produced by build_entry *)
+
+Definition eligible (e : entry) (node : nat) : bool :=
+  match e_elig e with None => true | Some l => memn node l end.
 
 Definition m_step (e : entry) (o : mop) : entry :=
   match o with
-  | MEdgeWrite ty =>
-      if memn ty (e_types e)
-      then {| e_types := e_types e; e_prop := e_prop e; e_index := e_index e; e_stale := true |}
-      else e
+  | MEdgeWrite ty => if memn ty (e_types e) then e_with e (e_index e) true else e
   | MMeasureWrite prop node v =>
       match e_prop e with
       | Some pr =>
@@ -618,20 +625,66 @@ Definition m_step (e : entry) (o : mop) : entry :=
             match e_index e with
             | Some ix =>
                 if node <? pn (ix_poset ix) then
-                  match update_measure ix node v with
-                  | Some ix' => {| e_types := e_types e; e_prop := e_prop e;
-                                   e_index := Some ix'; e_stale := e_stale e |}
-                  | None => {| e_types := e_types e; e_prop := e_prop e;
-                               e_index := e_index e; e_stale := true |}
-                  end
-                else {| e_types := e_types e; e_prop := e_prop e; e_index := e_index e; e_stale := true |}
-            | None => {| e_types := e_types e; e_prop := e_prop e; e_index := None; e_stale := true |}
+                  if eligible e node then
+                    match update_measure ix node v with
+                    | Some ix' => e_with e (Some ix') (e_stale e)
+                    | None => e_with e (e_index e) true
+                    end
+                  else e            (* hierarchy node without the measure label: not part of the measure *)
+                else e_with e (e_index e) true
+            | None => e_with e None true
             end
           else e
       | None => e
       end
-  | MRebuild fresh =>
-      {| e_types := e_types e; e_prop := e_prop e; e_index := fresh; e_stale := false |}
+  | MPropRemove _ _ => e
+  | MRebuild fresh elig =>
+      {| e_types := e_types e; e_prop := e_prop e; e_elig := elig; e_index := fresh; e_stale := false |}
+  end.
+
+(* ghost: the measure the graph currently holds for the index's nodes (dense-indexed, label
+   restriction applied), maintained next to the entry.  [synced] is what "after any sequence of
+   measure updates the roll-ups equal the brute-force answers" needs from the manager. *)
+Definition g_step (e : entry) (g : list (option Z)) (o : mop) : list (option Z) :=
+  match o with
+  | MEdgeWrite _ => g
+  | MMeasureWrite prop node v =>
+      match e_prop e with
+      | Some pr => if Nat.eqb pr prop && eligible e node then upd g node v else g
+      | None => g
+      end
+  | MPropRemove prop node =>
+      match e_prop e with
+      | Some pr => if Nat.eqb pr prop && eligible e node then upd g node None else g
+      | None => g
+      end
+  | MRebuild fresh _ =>
+      match fresh with
+      | Some ix => match ix_measure ix with Some m => m | None => g end
+      | None => g
+      end
+  end.
+
+Fixpoint mg_run (e : entry) (g : list (option Z)) (ops : list mop) : entry * list (option Z) :=
+  match ops with
+  | [] => (e, g)
+  | o :: r => mg_run (m_step e o) (g_step e g o) r
+  end.
+
+Definition synced (e : entry) (g : list (option Z)) : Prop :=
+  usable e = true -> exists ix, e_index e = Some ix /\ ix_measure ix = Some g.
+
+(* the known class: histories in which remove_node_property hits the declared measure property of
+   a node that is part of the measure (followed along the run: eligibility changes at a rebuild) *)
+Definition removes_measure_at (e : entry) (o : mop) : bool :=
+  match o, e_prop e with
+  | MPropRemove prop node, Some pr => Nat.eqb pr prop && eligible e node
+  | _, _ => false
+  end.
+Fixpoint Known_C28 (e : entry) (ops : list mop) : bool :=
+  match ops with
+  | [] => false
+  | o :: r => removes_measure_at e o || Known_C28 (m_step e o) r
   end.
 
 (* ---------- correspondence cases ---------- *)
@@ -654,12 +707,15 @@ Definition mobs := (bool * list (N * rop * option rv))%type.
 Inductive hstep :=
 | HEdgeWrite (covering : bool)                                  (* create/delete of an edge *)
 | HPropWrite (is_measure : bool) (node : N) (v : option Z)      (* set_column_property *)
-| HRebuild (edges : list (N * N)) (measure : list (N * option Z)).  (* graph as read by rebuild *)
+| HPropRemove (is_measure : bool) (node : N)                    (* remove_node_property *)
+| HRebuild (edges : list (N * N)) (elig : option (list N)) (measure : list (N * option Z)).
+  (* graph as read by rebuild: IS_A edges, ids carrying the measure label (None = unrestricted),
+     raw column values *)
 
 Inductive case :=
 | CDirect (n : N) (edges : list (N * N)) (f : N) (b : built) (script : list step)
   (* forced encoding: 0 auto 1 nested 2 chain 3 near *)
-| CMgr (edges : list (N * N)) (measure : list (N * option Z)) (ops : list rop)
+| CMgr (edges : list (N * N)) (elig : option (list N)) (measure : list (N * option Z)) (ops : list rop)
        (o0 : mobs) (hist : list (hstep * mobs)).
 
 Definition enc_code (e : enc) : N :=
@@ -713,34 +769,51 @@ Fixpoint check_steps (ix : index) (l : list step) : bool :=
   end.
 
 (* build_entry: Poset::from_store (sparse ids interned in edge order) + build + set_measure *)
-Definition build_entry (edges : list (N * N)) (measure : list (N * option Z)) (ops : list rop)
-  : option (list nat * option index) :=
+Definition build_entry (edges : list (N * N)) (elig : option (list N))
+           (measure : list (N * option Z)) (ops : list rop)
+  : option (list nat * option index * option (list nat)) :=
   let es := map (fun e : N * N => (N.to_nat (fst e), N.to_nat (snd e))) edges in
   let ids := intern_all [] es in
   let dense := map (fun e : nat * nat => (index_of (fst e) ids, index_of (snd e) ids)) es in
+  let has_label := fun id => match elig with
+                             | None => true
+                             | Some l => existsb (fun x => Nat.eqb (N.to_nat x) id) l
+                             end in
   match build_index (length ids) dense FAuto with
   | inr ENotAcyclic => None                 (* create/rebuild return Err; nothing is replaced *)
-  | inr _ => Some (ids, None)               (* declined: registered without an index *)
+  | inr _ => Some (ids, None, None)         (* declined: registered without an index *)
   | inl ix =>
-      let m := map (fun id => match find (fun e : N * option Z => Nat.eqb (N.to_nat (fst e)) id) measure with
-                              | Some e => snd e | None => None end) ids in
-      Some (ids, Some (set_measure ix m ops))
+      (* read_node_measure: the property of nodes carrying the label, nothing for the others *)
+      let m := map (fun id => if has_label id then
+                                match find (fun e : N * option Z => Nat.eqb (N.to_nat (fst e)) id) measure with
+                                | Some e => snd e | None => None end
+                              else None) ids in
+      let el := match elig with
+                | None => None
+                | Some _ => Some (filter (fun d => has_label (nth d ids 0)) (seq 0 (length ids)))
+                end in
+      Some (ids, Some (set_measure ix m ops), el)
   end.
 
 Record mstate := { ms_ids : list nat; ms_entry : entry }.
+
+Definition dense_of (s : mstate) (node : N) : nat :=
+  let id := N.to_nat node in
+  if memn id (ms_ids s) then index_of id (ms_ids s) else length (ms_ids s).
 
 Definition h_step (ops : list rop) (s : mstate) (h : hstep) : mstate :=
   match h with
   | HEdgeWrite cov =>
       {| ms_ids := ms_ids s; ms_entry := m_step (ms_entry s) (MEdgeWrite (if cov then 0 else 1)) |}
   | HPropWrite ism node v =>
-      let id := N.to_nat node in
-      let dense := if memn id (ms_ids s) then index_of id (ms_ids s) else length (ms_ids s) in
       {| ms_ids := ms_ids s;
-         ms_entry := m_step (ms_entry s) (MMeasureWrite (if ism then 0 else 1) dense v) |}
-  | HRebuild edges measure =>
-      match build_entry edges measure ops with
-      | Some (ids, ix) => {| ms_ids := ids; ms_entry := m_step (ms_entry s) (MRebuild ix) |}
+         ms_entry := m_step (ms_entry s) (MMeasureWrite (if ism then 0 else 1) (dense_of s node) v) |}
+  | HPropRemove ism node =>
+      {| ms_ids := ms_ids s;
+         ms_entry := m_step (ms_entry s) (MPropRemove (if ism then 0 else 1) (dense_of s node)) |}
+  | HRebuild edges elig measure =>
+      match build_entry edges elig measure ops with
+      | Some (ids, ix, el) => {| ms_ids := ids; ms_entry := m_step (ms_entry s) (MRebuild ix el) |}
       | None => s
       end
   end.
@@ -772,11 +845,12 @@ Definition check_case (c : case) : bool :=
       | inl ix, BOk code => N.eqb (enc_code (ix_enc ix)) code && check_steps ix script
       | _, _ => false
       end
-  | CMgr edges measure ops o0 hist =>
-      match build_entry edges measure ops with
-      | Some (ids, ix) =>
+  | CMgr edges elig measure ops o0 hist =>
+      match build_entry edges elig measure ops with
+      | Some (ids, ix, el) =>
           let s := {| ms_ids := ids;
-                      ms_entry := {| e_types := [0]; e_prop := Some 0; e_index := ix; e_stale := false |} |} in
+                      ms_entry := {| e_types := [0]; e_prop := Some 0; e_elig := el;
+                                     e_index := ix; e_stale := false |} |} in
           obs_ok s o0 && check_hist ops s hist
       | None => false
       end
